@@ -335,5 +335,38 @@ func runC17(c *mon.Ctx) {
 			}
 		})
 	}
+	// bulk: value classes that are thin but not targeted by any generator (a mistake that hits one value in 2^16) need
+	// sheer numbers; the check per value is the cheap one (nil exactly for non-residues, root^2 == v)
+	c.Case("bulk-random", func() {
+		rng := c.Rand("bulk-random")
+		n := c.Pick(45000, 400000)
+		bad := 0
+		for i := 0; i < n && bad < 3; i++ {
+			v := randBig(rng, ref.P)
+			if i%4 == 0 {
+				v = big.NewInt(int64(rng.Intn(1 << 24))) // small integers
+			}
+			x := FpFromBig(v)
+			res := fp.SqrtPrecomp(&x)
+			jac := big.Jacobi(v, ref.P)
+			switch {
+			case v.Sign() == 0:
+			case jac == -1 && res != nil:
+				bad++
+				c.Fail("sqrt-of-non-residue", "SqrtPrecomp returned a value for the non-residue "+v.Text(16), map[string]string{"v": v.Text(16), "class": "bulk"})
+			case jac == 1 && res == nil:
+				bad++
+				c.Fail("sqrt-nil-for-residue", "SqrtPrecomp returned nil for the square "+v.Text(16), map[string]string{"v": v.Text(16), "class": "bulk"})
+			case jac == 1:
+				r := FpToBig(res)
+				if ref.MulP(r, r).Cmp(v) != 0 {
+					bad++
+					c.Fail("sqrt-wrong-root", "SqrtPrecomp: root^2 != v for "+v.Text(16), map[string]string{"v": v.Text(16), "class": "bulk"})
+				}
+			}
+		}
+		c.Count("bulk_values_checked", int64(n))
+		c.EvalN("sqrt|bulk", int64(n), true)
+	})
 	c.Case("retained-results", func() { c17kept.Flush(c) })
 }
